@@ -402,6 +402,109 @@ func comboScenario(path string, bind uint16, bound int) e1.Scenario {
 	return e1.Scenario{Name: fmt.Sprintf("listen+discovery+call/%s/bind=%d", path, bind), Bound: bound, Body: body, Check: check}
 }
 
+// samePortScenario: the client's bind port equals its listen port and its own listener is running
+// when a directed GetStatus call is made; the controller pushes an event to that port the moment it
+// is asked and answers 0.1 T later. Either the call cannot have the port (it fails before anything
+// is sent - the listener holds it) or it gets its own reply from its own bind address; the listener
+// gets the events that were pushed and nothing else.
+func samePortScenario(path string, bindIP string, bound int) e1.Scenario {
+	var l *lst
+	var ret error
+	var returned bool
+	var obs spec.Observed
+	var pushed int
+	const port = 60001
+	args := argsFor("GetStatus", 0)
+	op := spec.OpByName("GetStatus")
+	body := func() {
+		l = &lst{}
+		returned, pushed = false, 0
+		cur := l
+		np := &pushed
+		f := &farm.Farm{}
+		ev := spec.EncodeMessage(0x17, 0x20, ctrls[0].serial, spec.StatusReply, func() spec.Args {
+			v := ops.BaselineReply(op)
+			v["EventIndex"] = uint32(9999)
+			v["SequenceId"] = uint32(424242)
+			return v
+		}())
+		c := farm.Echo(ctrls[0].ip+":60000", ctrls[0].serial, func([]byte) time.Duration { return T / 10 })
+		inner := c.Respond
+		c.Respond = func(proto string, req []byte, from string) []farm.Reply {
+			out := inner(proto, req, from)
+			if proto == "udp" {
+				*np++
+				out = append([]farm.Reply{{Delay: 0, Data: ev}}, out...)
+			}
+			return out
+		}
+		f.Controllers = append(f.Controllers, c)
+		vs.Net().Env = f
+		devices := []uhppote.Device{}
+		if path != "broadcast" {
+			devices = append(devices, uhppote.Device{DeviceID: ctrls[0].serial, Address: types.ControllerAddrFrom(netip.MustParseAddr(ctrls[0].ip), 60000), Protocol: path})
+		}
+		u := uhppote.NewUHPPOTE(types.BindAddrFrom(netip.MustParseAddr(bindIP), port), types.BroadcastAddrFrom(netip.MustParseAddr("192.168.1.255"), 60000),
+			types.ListenAddrFrom(netip.MustParseAddr("0.0.0.0"), port), T, devices, false)
+		q := make(chan os.Signal, 1)
+		vs.GoNamed("stopper", func() { vs.Sleep(15 * T / 10); vs.Send(q, os.Signal(os.Interrupt)) })
+		vs.GoNamed("caller", func() {
+			vs.Sleep(T / 10)
+			obs = ops.Invoke(u, "GetStatus", ctrls[0].serial, args)
+		})
+		ret = u.Listen(cur, q)
+		returned = true
+	}
+	check := func(e *vs.Exec) (string, []e1.Viol) {
+		viols := e1.Generic(e)
+		for _, r := range e.Races {
+			viols = append(viols, e1.Viol{Key: raceKey(r), What: "data race: " + r})
+		}
+		if e.Abort != "" {
+			return e.Abort, viols
+		}
+		add := func(key, what string) {
+			viols = append(viols, e1.Viol{Key: "listener-on-bind-port/" + key + "/" + path, What: what + fmt.Sprintf(" (bind %s:%d, listening on 0.0.0.0:%d)", bindIP, port, port)})
+		}
+		if !returned || ret != nil {
+			add("listen-did-not-return-nil", fmt.Sprintf("returned=%v err=%v", returned, ret))
+		}
+		req := spec.EncodeRequest(op, ctrls[0].serial, args)
+		sent := 0
+		for _, p := range vs.Net().Packets {
+			if bytes.Equal(p.Data, req) {
+				sent++
+				if src := netip.MustParseAddrPort(p.Src); src.Port() != port || src.Addr().String() != bindIP {
+					add("wrong-source-address", fmt.Sprintf("the request left from %s", p.Src))
+				}
+			}
+		}
+		label := ""
+		switch {
+		case sent == 0 && obs.Err != nil:
+			label = "call refused (port held by the listener)"
+		case sent == 0:
+			add("result-without-asking", fmt.Sprintf("returned %v", obs.Fields))
+		case obs.Err != nil:
+			add("own-reply-lost", fmt.Sprintf("the controller was asked and answers 0.1 T later, the call failed: %v", obs.Err))
+		default:
+			reply := farm.EchoReply(ctrls[0].serial, req)
+			if v := spec.Judge(spec.ExpectReply(op, ctrls[0].serial, args, reply), obs); v.Class != "" {
+				add("crossed-reply", "the call returned something that is not the reply to its request (the controller also pushed an event to that port): "+v.Detail)
+			}
+			label = "call answered"
+		}
+		if path != "tcp" && l.events != pushed {
+			add("listener-events", fmt.Sprintf("%d events were pushed to the listen port, the listener reported %d events and %d errors", pushed, l.events, l.errors))
+		}
+		if open := vs.Net().OpenSockets(); len(open) > 0 {
+			add("socket-left-open", fmt.Sprint(open))
+		}
+		return label + fmt.Sprintf(" events=%d/%d", l.events, pushed), viols
+	}
+	return e1.Scenario{Name: fmt.Sprintf("listener-on-bind-port/%s/bind=%s", path, bindIP), Bound: bound, Body: body, Check: check}
+}
+
 func listenScenario(stopAt time.Duration, bound int) e1.Scenario {
 	var l *lst
 	var ret error
@@ -676,6 +779,12 @@ func main() {
 			scenarios = append(scenarios, comboScenario(p, bind, b))
 		}
 	}
+	// the client's own listener sits on the client's bind port
+	for _, p := range paths {
+		for _, ip := range []string{"0.0.0.0", "192.168.1.2"} {
+			scenarios = append(scenarios, samePortScenario(p, ip, 1))
+		}
+	}
 	// the listener while it is being shut down
 	for _, at := range []time.Duration{0, T / 10, 15 * T / 100, 2 * T / 10, 3 * T / 10} {
 		scenarios = append(scenarios, listenScenario(at, bound))
@@ -688,7 +797,7 @@ func main() {
 	if r.Worker == "" && r.Replay == "" {
 		racePass(r)
 	}
-	r.Rule("2 (thorough also 3) harness threads x {bind port 0, fixed} x {one shared client, two clients (also: same fixed port on the wildcard and on a specific local address)} x {same, different controller} x paths {udp,tcp,broadcast}^2 x reply delays {0,0.4T,0.8T}^2 x start offset {0,0.3T} x 3 operation pairs; every one of the 31 directed operations concurrently with itself and with PutCard (<= 1 preemption; quick: connected-UDP path only); a failing call (silent controller, stalled / refused / reset TCP) followed by and concurrent with calls that must succeed; three staggered calls on one fixed port; discovery alongside a directed call; the listener, discovery and a directed call at once through one client; Listen with two events and the stop signal at 5 offsets; two threads x two sequential calls; for each scenario ALL interleavings with <= 2 preemptions (thorough: the two-call scenarios under ALL interleavings without bound, three-call families with <= 3 preemptions). distinct = distinct per-call outcome labels observed")
+	r.Rule("2 (thorough also 3) harness threads x {bind port 0, fixed} x {one shared client, two clients (also: same fixed port on the wildcard and on a specific local address)} x {same, different controller} x paths {udp,tcp,broadcast}^2 x reply delays {0,0.4T,0.8T}^2 x start offset {0,0.3T} x 3 operation pairs; every one of the 31 directed operations concurrently with itself and with PutCard (<= 1 preemption; quick: connected-UDP path only); a failing call (silent controller, stalled / refused / reset TCP) followed by and concurrent with calls that must succeed; three staggered calls on one fixed port; discovery alongside a directed call; the listener, discovery and a directed call at once through one client; a call through a client whose own listener sits on its bind port while the controller pushes an event; Listen with two events and the stop signal at 5 offsets; two threads x two sequential calls; for each scenario ALL interleavings with <= 2 preemptions (thorough: the two-call scenarios under ALL interleavings without bound, three-call families with <= 3 preemptions). distinct = distinct per-call outcome labels observed")
 	r.Assume("sequentially consistent memory; scheduling points at mutex, channel, socket and sleep operations; unsynchronised accesses to locals shared with goroutine closures and to package-level variables of every package of the module (uhppote, types, messages, encoding/*) are caught by the vector-clock detector; struct fields and heap objects reached through pointers only by the free-running -race pass")
 	r.Assume("the simulated network orders consecutive operations on one socket (fd mutex atomics), as the real net package does")
 	r.Finish()
